@@ -2642,7 +2642,9 @@ class PGPKey(Armorable, ParentRef, PGPObject):
         if issuer is not None:
             for sig, subject in candidates:
                 if sig.signer == issuer.fingerprint.keyid and not sig.is_expired and issuer._issued(sig, subject):
-                    return SecurityIssues.OK
+                    # a subkey is only as good as the primary key that binds it: a binding signature made by a
+                    # primary key that no self-signature vouches for binds the subkey to nothing
+                    return SecurityIssues.OK if self.is_primary else issuer.self_verified
 
         return SecurityIssues.NoSelfSignature
 
